@@ -28,11 +28,12 @@ static uint64_t tape_next(void)
     default: return hx_mix(tape_seed * 0x9E3779B97F4A7C15ULL + p * 0xD1B54A32D192ED03ULL + 12345);
     }
 }
-int ascon_trng_init(ascon_trng_state_t *state) { memset(state, 0, sizeof *state); return 1; }
+static int trng_status = 1;   /* what the scripted source reports about the system seed: the masked functions compute the same values either way */
+int ascon_trng_init(ascon_trng_state_t *state) { memset(state, 0, sizeof *state); return trng_status; }
 void ascon_trng_free(ascon_trng_state_t *state) { (void)state; }
 uint32_t ascon_trng_generate_32(ascon_trng_state_t *state) { (void)state; return (uint32_t)tape_next(); }
 uint64_t ascon_trng_generate_64(ascon_trng_state_t *state) { (void)state; return tape_next(); }
-int ascon_trng_reseed(ascon_trng_state_t *state) { (void)state; return 1; }
+int ascon_trng_reseed(ascon_trng_state_t *state) { (void)state; return trng_status; }
 static void tape(int mode, uint64_t seed) { tape_mode = mode; tape_pos = 0; tape_seed = seed; tape_nexp = 0; }
 
 /* ---------------- word toolkit ---------------- */
@@ -258,7 +259,7 @@ static void aead_mode(int alg, int tier)
     int ns = tier ? 41 : 12;
     for (int tm = 0; tm < T_EXPLICIT; tm++) for (int ai = 0; ai < ns; ai++) for (int li = 0; li < ns; li++) {
         int a = tier ? ai : qs[ai], l = tier ? li : qs[li]; uint8_t e[96], c[96], p[96]; size_t cl = 0, ml = 0;
-        api_masked_key mk; tape(tm, a * 64 + l);
+        api_masked_key mk; tape(tm, a * 64 + l); trng_status = ((ai + li) % 7) != 4;     /* every seventh shape with a source that reports a failed system seed */
         api_masked_key_init(alg, &mk, key);
         api_aead_enc[alg](e, &cl, m, l, ad, a, nonce, key);
         api_masked_enc[alg](c, &cl, m, l, ad, a, nonce, &mk); n++;
@@ -290,6 +291,7 @@ static void keys_mode(void)
 {
     long n = 0; uint8_t key[20], out[20];
     for (int vi = 0; vi < 40; vi++) for (int tm = 0; tm < T_EXPLICIT; tm++) {
+        trng_status = (vi % 5) != 3;      /* every fifth key with a source that reports a failed system seed */
         if (vi < 2) memset(key, vi ? 0xff : 0, 20); else hx_fill(key, 20, vi & 1 ? HX_P_DENSE : HX_P_DENSE2, vi);
         tape(tm, vi);
         { ascon_masked_key_128_t *k = (ascon_masked_key_128_t *)hx_buf(sizeof *k), before; ascon_masked_key_128_init(k, key); ascon_masked_key_128_extract(k, out); n++;
